@@ -14,13 +14,22 @@ func ZZ_C07_verifyPSKInputs() {
 	st.modeID = modeID(zzU8("mode"))
 	zzAssume(st.modeID <= 3)
 	var psk, pskID []byte
-	gotPSK := zzPick("gotPSK", 0, 1) == 1
-	gotID := zzPick("gotPSKID", 0, 1) == 1
-	if gotPSK {
+	// three forms of each input: nil, empty but non-nil, non-empty.  RFC 9180: default_psk and
+	// default_psk_id are the EMPTY string, so "given" means non-empty
+	pskForm := zzPick("pskForm", 0, 1, 2)
+	idForm := zzPick("pskIDForm", 0, 1, 2)
+	gotPSK, gotID := pskForm == 2, idForm == 2
+	switch pskForm {
+	case 1:
+		psk = []byte{}
+	case 2:
 		psk = make([]byte, 1+zzPick("psklen", 0, 31))
 		zzFill("psk", psk)
 	}
-	if gotID {
+	switch idForm {
+	case 1:
+		pskID = []byte{}
+	case 2:
 		pskID = make([]byte, 1)
 		zzFill("pskid", pskID)
 	}
